@@ -36,7 +36,7 @@ VD_QUICK = ["float64", "int64", "bool", "datetime64[ns]"]
 VD_THOROUGH = VD_QUICK + ["float32", "timedelta64[ns]"]
 N_SHARDS = 4
 
-VAL_CONTAINERS = ["numpy", "numpy_strided", "numpy_offset", "pandas", "numpy", "numpy_readonly", "pandas_arrow", "polars", "arrow", "arrow_chunked", "numpy_offset"]
+VAL_CONTAINERS = ["numpy", "numpy_strided", "numpy_offset", "pandas", "numpy", "numpy_readonly", "pandas_arrow", "polars", "arrow", "arrow_chunked", "numpy_offset", "polars_nulls", "pandas_arrow_nulls"]
 KEY_CONTAINERS = ["numpy", "numpy_strided", "numpy_readonly", "pandas", "arrow_chunked", "polars"]
 FN_OPS = ["fn_ema", "fn_ema_grouped", "fn_group_sum", "fn_group_min", "fn_group_first", "fn_group_mean", "fn_cumsum", "fn_cummax", "fn_rolling_sum", "fn_rolling_max", "fn_shift"]
 
@@ -133,6 +133,18 @@ def own_array(arr: np.ndarray, how: str, name=None, lens=None) -> Owned:
         chunks = [to_pa(arr[a:b]) for a, b in zip(bounds[:-1], bounds[1:])]
         ca = pa.chunked_array(chunks, type=chunks[0].type)
         return Owned(ca, [ca], how)
+    if how in ("polars_nulls", "pandas_arrow_nulls"):
+        # missing values as real Arrow nulls (validity bitmap) over a buffer whose null slots
+        # hold a finite filler: the buffer is the caller's, null slots included
+        if arr.dtype.kind == "f" and np.isnan(arr).any():
+            m = np.isnan(arr)
+            a = pa.array(np.where(m, arr.dtype.type(0), arr), mask=m)
+            if how == "polars_nulls":
+                sr = pl.from_arrow(a)
+                return Owned(sr.alias(name) if name else sr, [a, sr], how)
+            sr = pd.Series(pd.arrays.ArrowExtensionArray(a), name=name)
+            return Owned(sr, [a, sr], how)
+        how = "polars" if how == "polars_nulls" else "pandas_arrow"
     if how == "pandas_arrow":
         a = to_pa(arr)
         s = pd.Series(pd.arrays.ArrowExtensionArray(a), name=name)
@@ -328,7 +340,7 @@ def gen_scenario(scen: Choices, cls, cfg):
     val_cont = []
     for col in ds["cols"]:
         c = VAL_CONTAINERS[scen.draw(len(VAL_CONTAINERS))]
-        if col["dtype"] == "bool" and c in ("arrow", "arrow_chunked", "pandas_arrow", "polars"):
+        if col["dtype"] == "bool" and c in ("arrow", "arrow_chunked", "pandas_arrow", "polars", "polars_nulls", "pandas_arrow_nulls"):
             c = "numpy_strided"
         val_cont.append(c)
     cut_lens = gen._cuts(scen, n)
